@@ -267,13 +267,16 @@ def eval_any(case, rng):
     keys = ("\n".join(lines) + "\n").encode() if lines else b"# empty\n"
     extra = []
     opts = []
-    for o in ("-a", "-m", "-c", "-g", "-p"):
-        if rng.random() < 0.3:
+    for o in ("-a", "-m", "-c", "-g", "-p", "-d"):
+        if rng.random() < (0.3 if o != "-d" else 0.12):
             opts.append(o)
             if o == "-m":
                 extra += ["-m"] + rng.choice([[], ["443:8443"], ["443:1,", "8443:2"]])
             elif o == "-p":
                 extra += ["-p", str(rng.choice([8443, 1, 65535]))]
+            elif o == "-d":
+                # logging switched on (the messages are built from the same objects the export is built from): level by name or the bare option, optionally filtered by file
+                extra += rng.choice([["-d"], ["-d", "INFO"], ["-d", "DEBUG"], ["-d", "WARNING"], ["-d", "DEBUG", "-f", "session.py", "quic_session.py"]])
             else:
                 extra.append(o)
     legacy = rng.random() < 0.15
